@@ -782,7 +782,7 @@ func histGroups(tier string) []group {
 			root := pbref.Normalize(st.v)
 			depth := 2
 			if tier == "thorough" {
-				depth = 3
+				depth = 4
 			}
 			for i, op := range enabledOps(st.s, root) {
 				i, op := i, op
